@@ -1,6 +1,33 @@
-//! Harness for property C18 (stub: not built yet).
+//! C18 — reading AS OF a past point returns what was current then.
+//!
+//! Same statement generator and real-code runner as C17 (shared modules). After every statement
+//! the coordinate that is now the present is recorded with a battery of queries (element, tuple,
+//! path, join, filter, aggregate, belief, order/limit patterns) answered live; after **every**
+//! later statement each recorded coordinate is replayed `AS OF SEQ s` (and `AS OF TX`, `AS OF TIME`
+//! for committed coordinates) and compared with its recording.
+//!
+//! * correspondence: the Lean model (`drv_c18`), fed the same statements, predicts for every
+//!   recorded coordinate the visible `(id, version, state)` set (its `elementAt` over its own
+//!   version log), compared with what the real `AS OF` reads return;
+//! * oracle (independent of the model): replay = recording; the epistemic payload of an Assertion /
+//!   Evidence record is identical in all its version rows.
+#[path = "../../c17/src/drive.rs"]
+mod drive;
+#[path = "../../c17/src/ops.rs"]
+mod ops;
+#[path = "../../c17/src/oracle.rs"]
+mod oracle;
+#[path = "../../c17/src/runner.rs"]
+mod runner;
+#[path = "../../c17/src/world.rs"]
+mod world;
+
 fn main() {
-    let a = vh_common::Args::parse();
-    let r = vh_common::Report::new("C18", &a, "stub");
-    r.write(&a);
+    drive::main_with(drive::Setup {
+        property: "C18",
+        rule: "a case is non-trivial when at least one statement committed with a non-empty change list (so that a later AS OF read has something to get wrong); distinct by the sequence of receipts",
+        cfg: runner::Cfg { history: true, atomicity: false },
+        cases: (320, 12000),
+        len: (7, 12),
+    });
 }
